@@ -8,12 +8,17 @@ import (
 	"verif/harness/sym"
 )
 
-// C05_IntOut_int64: Int.CoerceOut(int64) either fails with nil, or returns the
-// same number as a 32-bit integer.
-func C05_IntOut_int64() {
-	v := sym.Int64("v")
-	out := ggql.NewRoot(nil).GetType("Int").(ggql.OutCoercer)
-	r, err := out.CoerceOut(v)
+func outCoercer(name string) ggql.OutCoercer {
+	return ggql.NewRoot(nil).GetType(name).(ggql.OutCoercer)
+}
+
+// C05_IntOut_num: Int.CoerceOut of every numeric Go kind (full width): either
+// an error with a nil result, or an int32 denoting the same number.
+func C05_IntOut_num() {
+	kind := sym.Choice("kind", nNumKinds)
+	n := anyNum(kind)
+	out := outCoercer("Int")
+	r, err := out.CoerceOut(n.v)
 	sym.Observe("r", r)
 	sym.Observe("err", err != nil)
 	if err != nil {
@@ -22,6 +27,181 @@ func C05_IntOut_int64() {
 	}
 	i, ok := r.(int32)
 	sym.Assert(ok, "Int result is int32")
-	sym.Assert(int64(i) == v, "value preserved")
-	_ = math.MaxInt32
+	if n.isFloat && sym.Known("C05-int-out-float-truncates", !n.inInt32()) {
+		return
+	}
+	sym.Assert(n.equalsInt32(i), "value preserved")
+}
+
+// C05_IntOut_string: Int.CoerceOut of every string of up to 3 bytes (4 thorough).
+func C05_IntOut_string() {
+	maxLen := 3
+	if sym.Thorough() {
+		maxLen = 4
+	}
+	s := symText("s", maxLen)
+	out := outCoercer("Int")
+	r, err := out.CoerceOut(s)
+	sym.Observe("r", r)
+	if err != nil {
+		sym.Assert(r == nil, "error implies nil result")
+		return
+	}
+	i, ok := r.(int32)
+	sym.Assert(ok, "Int result is int32")
+	// reference: the text must be an optionally signed run of digits (underscore-free) denoting i
+	val, good := refParseDecimal(s)
+	sym.Assert(good && val == int64(i), "text denotes the result")
+}
+
+// refParseDecimal is the harness's own decimal reader: [+-]?[0-9]+ .
+func refParseDecimal(s string) (int64, bool) {
+	if len(s) == 0 {
+		return 0, false
+	}
+	neg := false
+	k := 0
+	if s[0] == '-' || s[0] == '+' {
+		neg = s[0] == '-'
+		k = 1
+	}
+	if k == len(s) {
+		return 0, false
+	}
+	var v int64
+	for ; k < len(s); k++ {
+		c := s[k]
+		if c < '0' || c > '9' {
+			return 0, false
+		}
+		v = v*10 + int64(c-'0')
+	}
+	if neg {
+		v = -v
+	}
+	return v, true
+}
+
+// C05_Int64Out_num: Int64.CoerceOut of every numeric kind.
+func C05_Int64Out_num() {
+	kind := sym.Choice("kind", nNumKinds+1)
+	n := anyNum(kind)
+	if kind == nNumKinds {
+		n.v = struct{ X int }{int(sym.Int8("x"))} // a value of a kind no scalar accepts
+	}
+	out := outCoercer("Int64")
+	r, err := out.CoerceOut(n.v)
+	sym.Observe("r", r)
+	if err != nil {
+		sym.Assert(r == nil, "error implies nil result")
+		return
+	}
+	i, ok := r.(int64)
+	sym.Assert(ok, "Int64 result is int64")
+	if n.isFloat && sym.Known("C05-int64-out-float-truncates", !n.equalsInt64(i)) {
+		return
+	}
+	if sym.Known("C05-int64-out-uint-wraps", n.isInt && !n.fitsI64) {
+		return
+	}
+	sym.Assert(n.equalsInt64(i), "value preserved")
+}
+
+// C05_FloatOut_num: Float.CoerceOut of every numeric kind: a finite float32
+// that is the input rounded to 32-bit precision, or an error.
+func C05_FloatOut_num() {
+	kind := sym.Choice("kind", nNumKinds+1)
+	n := anyNum(kind)
+	if kind == nNumKinds {
+		n.v = struct{ X int }{int(sym.Int8("x"))} // a value of a kind no scalar accepts
+	}
+	out := outCoercer("Float")
+	r, err := out.CoerceOut(n.v)
+	sym.Observe("err", err != nil)
+	if err != nil {
+		sym.Assert(r == nil, "error implies nil result")
+		return
+	}
+	f, ok := r.(float32)
+	sym.Assert(ok, "Float result is float32")
+	if n.isFloat && sym.Known("C05-float-out-nonfinite", !sym.And(isFinite(n.f64), math.Abs(n.f64) <= math.MaxFloat32)) {
+		return
+	}
+	sym.Assert(isFinite(float64(f)), "Float result is finite")
+}
+
+// C05_Float64Out_num: Float64.CoerceOut of every numeric kind.
+func C05_Float64Out_num() {
+	kind := sym.Choice("kind", nNumKinds+1)
+	n := anyNum(kind)
+	if kind == nNumKinds {
+		n.v = struct{ X int }{int(sym.Int8("x"))} // a value of a kind no scalar accepts
+	}
+	out := outCoercer("Float64")
+	r, err := out.CoerceOut(n.v)
+	if err != nil {
+		sym.Assert(r == nil, "error implies nil result")
+		return
+	}
+	f, ok := r.(float64)
+	sym.Assert(ok, "Float64 result is float64")
+	if n.isFloat && sym.Known("C05-float64-out-nonfinite", !isFinite(n.f64)) {
+		return
+	}
+	sym.Assert(isFinite(f), "Float64 result is finite")
+	if n.isFloat {
+		sym.Assert(f == n.f64, "float value preserved")
+	}
+}
+
+// C05_BoolOut: Boolean.CoerceOut of E kinds: a bool or (error, nil).
+func C05_BoolOut() {
+	out := outCoercer("Boolean")
+	var v interface{}
+	switch sym.Choice("kind", 5) {
+	case 0:
+		v = sym.Bool("b")
+	case 1:
+		v = sym.Float32("f")
+	case 2:
+		v = sym.Int32("i")
+	case 3:
+		v = symText("s", 3)
+	case 4:
+		v = sym.Int64("j")
+	}
+	r, err := out.CoerceOut(v)
+	if err != nil {
+		sym.Assert(r == nil, "error implies nil result")
+		return
+	}
+	_, ok := r.(bool)
+	sym.Assert(ok, "Boolean result is bool")
+}
+
+// C05_StringOut_int: String/ID.CoerceOut of integer kinds: decimal text of the value.
+func C05_StringOut_int() {
+	name := "String"
+	if sym.Choice("type", 2) == 1 {
+		name = "ID"
+	}
+	kind := sym.Choice("kind", kUint64+1)
+	n := anyNum(kind)
+	// formatting bound: |value| < 10^4 (DESIGN section 3.4) except for the full-width wrap region
+	lim := int64(30)
+	if sym.Thorough() {
+		lim = 300
+	}
+	small := sym.And(n.fitsI64, n.i64 > -lim, n.i64 < lim)
+	if sym.Known("C05-string-out-uint-wraps", !n.fitsI64) {
+		return
+	}
+	sym.Assume(small)
+	out := outCoercer(name)
+	r, err := out.CoerceOut(n.v)
+	sym.Assert(err == nil, "integer accepted")
+	s, ok := r.(string)
+	sym.Assert(ok, "String result is string")
+	val, good := refParseDecimal(s)
+	sym.Assert(good && val == n.i64, "text denotes the value")
 }
